@@ -253,7 +253,7 @@ func runTwin(sc *TwinScript) *sim.Outcome {
 	delivered := [2]int{}
 	exact, exactOps := false, 0
 	readsEq := func() bool {
-		return worlds[0].W.P[0].R.Reads() == worlds[1].W.P[0].R.Reads() && worlds[0].W.P[1].R.Reads() == worlds[1].W.P[1].R.Reads()
+		return worlds[0].W.P[0].R.History() == worlds[1].W.P[0].R.History() && worlds[0].W.P[1].R.History() == worlds[1].W.P[1].R.History()
 	}
 	compare := func(from [2]int, what string) bool {
 		c0, c1 := worlds[0].W.Calls[from[0]:], worlds[1].W.Calls[from[1]:]
